@@ -268,6 +268,29 @@ def obsolete_probe_cases(ctx):
     return out
 
 
+# (3) every named character reference of the standard (names from Python's html.entities.html5, a copy of the
+#     standard's table that is independent of the code under test; decoding is done by x/net/html on both sides):
+#     once in text and once in an attribute value, the legacy names also without the semicolon.  All of them are
+#     run in both tiers packed 100 per document; individually (minimal witnesses) a seeded 300 in quick, all in thorough.
+def entity_cases(ctx):
+    import html.entities
+    names = sorted(html.entities.html5)            # 'amp;', 'amp', 'varepsilon;', ...
+    def ref(n):
+        return '&' + n if n.endswith(';') else '&' + n + ' '      # a legacy reference is followed by a blank
+    out = []
+    for i in range(0, len(names), 100):
+        chunk = ' '.join('a%sb' % ref(n) for n in names[i:i + 100])
+        out.append(mk('<p>%s</p>' % chunk, 0, True, 0, origin='entity'))
+        out.append(mk('<span title="%s">x</span>' % chunk, 0, True, 0, origin='entity'))
+        out.append(mk('<span title=\'%s\'>x</span>' % chunk, 32, True, 0, origin='entity'))
+        out.append(mk(DOCTYPE + b'<title>' + chunk.encode() + b'</title>', 0, False, 0, origin='entity'))
+    single = names if not ctx.quick() else vlib.sample(names, 300, ctx.rnd)
+    for n in single:
+        out.append(mk('<p>a%sb</p>' % ref(n), 0, True, 0, origin='entity'))
+        out.append(mk('<span title="a%sb">x</span>' % ref(n), 0, True, 0, origin='entity'))
+    return out
+
+
 # wrong-design switches of the design models: the behaviour of the code before a fix must violate the design invariant
 NEGATIVE_CFGS = [('HtmlMachine', 'HtmlMachine_neg_%s.cfg' % b, 'DesignRefines') for b in
                  ('Noscript', 'Template', 'Rt', 'Script', 'PUnknown', 'Optgroup', 'ScriptComment', 'OptgroupScript', 'HiddenLeak', 'Colgroup', 'Body')] + [('HtmlAttr', 'HtmlAttr_neg_Amp.cfg', 'PlainOK')]
@@ -734,6 +757,7 @@ def run(ctx):
     cases += comment_position_cases(ctx)
     cases += element_probe_cases(ctx)
     cases += obsolete_probe_cases(ctx)
+    cases += entity_cases(ctx)
     ctx.coverage['fixed_family_cases'] = len(cases) - n_fixed0
     cases += pinned_cases()
     lines, side, accepted, rejects = validate(ctx, exe, cases, 'main')
